@@ -100,6 +100,9 @@ JsKind(lit) == CASE lit \in {"int:7"} -> "int" [] lit \in {"float:1.5"} -> "floa
                  [] lit = "throw:x" -> "throw" [] OTHER -> "str"
 JsText(lit) == CASE lit = "int:7" -> "7" [] lit = "float:1.5" -> "1.5" [] lit = "bool:true" -> "true" [] lit = "str:1" -> "1"
                  [] lit = "str:1.5" -> "1.5" [] lit = "str:x" -> "x" [] lit = "str:true" -> "true" [] lit = "throw:x" -> "x"
+                 \* "probe:x": a script that reports whether a name it was not given is defined - it never is: what another
+                 \* call (a throwing one included) was given is gone when that call ends
+                 [] lit = "probe:x" -> "x"
 Num(txt) == <<"i">> \o Chars(txt)
 Cast(k, txt, ty) ==
   CASE ty = "none"    -> (CASE k \in {"int", "float"} -> Num(txt) [] k = "bool" -> <<"b", txt>> [] OTHER -> <<"s">> \o Chars(txt))
